@@ -25,7 +25,8 @@ def main():
         return R.finish()
     cdir, harness, model = st
     dfas = json.load(open(os.path.join(cdir, 'dfa.json')))
-    MT = ['', 'text/plain', 'a', 'image/png', 'A.b-c+d_e^f', 'text/plain#x', 'x$y&z!', 'text/plain;charset=utf-8', 'a b', 'a%20b', 'é', 'a,b', 'a;b']
+    MT = ['', 'text/plain', 'a', 'image/png', 'A.b-c+d_e^f', 'text/plain#x', 'x$y&z!', 'text/plain;charset=utf-8', 'a b', 'a%20b', 'é', 'a,b', 'a;b',
+          'base64', 'application/x-base64', 'text/plain;name=base64', 'xbase64', 'a/b;base64=1']   # the flag's letters inside the media type, without the ';' delimiter or not at the end
     DATA = ['', 'hi', 'aGVsbG8=', 'aGVsbG8', 'QQ==', '%41%42', 'a,b', 'see;base64,aGVsbG8=', 'x;y', 'a#frag', 'a?b', '====', 'aGVs bG8=', 'é']
     cases = []
     for mt in MT:
